@@ -118,8 +118,26 @@ func findPrefixLoops(fn *ssa.Function) []prefixLoop {
 	return out
 }
 
+// prefixLoopHost: fn itself when it holds the loop that offers ever longer prefixes to the decoder, else
+// the same-package helper it calls that does (`utf, nIn := t.decodeLeading(b)`).
+func prefixLoopHost(fn *ssa.Function) *ssa.Function {
+	if len(findPrefixLoops(fn)) > 0 {
+		return fn
+	}
+	host := fn
+	eachInstr(fn, func(in ssa.Instruction) {
+		if cc := callCommon(in); cc != nil {
+			if h := cc.StaticCallee(); h != nil && h.Pkg == fn.Pkg && len(h.Blocks) > 0 && len(findPrefixLoops(h)) > 0 {
+				host = h
+			}
+		}
+	})
+	return host
+}
+
 func checkPrefixLoop(c *Ctx, p *Prog, fn *ssa.Function, rule string) {
 	short := fn.RelString(fn.Pkg.Pkg)
+	fn = prefixLoopHost(fn)
 	loops := findPrefixLoops(fn)
 	if len(loops) == 0 {
 		c.Undecided(rule, short+":prefix-loop", p.pos(fn.Pos()), "no loop feeding prefixes of the input to a Transformer found")
@@ -203,8 +221,33 @@ func checkC11(c *Ctx) {
 	}
 	checkSubstitutedPrefix(c, p, pr, "C11-R7")
 	// R2: the consumption loop counts down from nSrc
-	for _, pl := range findPrefixLoops(pr) {
+	for _, pl := range findPrefixLoops(prefixLoopHost(pr)) {
 		ok := false
+		if prefixLoopHost(pr) != pr {
+			// the loop lives in a helper that returns the decoder's count: the parser removes that many
+			// bytes (decided with the other consumption idioms by C02-R9, which follows the count
+			// through the helper's returns)
+			viaHelper := false
+			for _, pi := range inputParsers(p) {
+				if pi.fn != pr {
+					continue
+				}
+				for _, site := range pi.consume {
+					cc := callCommon(site)
+					var n ssa.Value
+					if cnt, isH := pi.helperCount[site]; isH {
+						n = cnt
+					} else if strings.HasSuffix(calleeName(cc), ".Next") && len(cc.Args) == 2 {
+						n = cc.Args[1]
+					}
+					if n != nil && isTransformNSrc(n, 0) {
+						viaHelper = true
+					}
+				}
+			}
+			c.Check(viaHelper, "C11-R2", "parseRune:consumes-nSrc", p.pos(pl.call.Pos()), "as many bytes are removed as Transform reports consumed (the count comes back from the helper that holds the decoder loop)")
+			continue
+		}
 		if pl.nSrc != nil {
 			for _, r := range referrers(pl.nSrc) {
 				if phi, isPhi := r.(*ssa.Phi); isPhi {
@@ -421,9 +464,11 @@ func checkRawInputNotUTF8(c *Ctx, p *Prog, fn *ssa.Function, rule string) {
 // multi-byte decoders of x/text emit U+FFFD and report the byte consumed.
 // Treating that as a decoded character loses the character.
 func checkSubstitutedPrefix(c *Ctx, p *Prog, fn *ssa.Function, rule string) {
+	name := fn.Name()
+	fn = prefixLoopHost(fn)
 	loops := findPrefixLoops(fn)
 	if len(loops) == 0 {
-		c.Undecided(rule, fn.Name()+":substituted-prefix", p.pos(fn.Pos()), "no prefix loop")
+		c.Undecided(rule, name+":substituted-prefix", p.pos(fn.Pos()), "no prefix loop")
 		return
 	}
 	// the prefix length variable
@@ -437,7 +482,7 @@ func checkSubstitutedPrefix(c *Ctx, p *Prog, fn *ssa.Function, rule string) {
 	// ErrShortSrc (or produces nothing) for an unfinished character and the loop moves on
 	if cc := callCommon(loops[0].call); cc != nil && len(cc.Args) == 3 {
 		if atEOF, ok := constBool(cc.Args[2]); ok && !atEOF {
-			c.OK(rule, fn.Name()+":substituted-prefix", p.pos(loops[0].call.Pos()), "prefixes are offered to the decoder with atEOF=false: an unfinished character is reported as short input, not substituted")
+			c.OK(rule, name+":substituted-prefix", p.pos(loops[0].call.Pos()), "prefixes are offered to the decoder with atEOF=false: an unfinished character is reported as short input, not substituted")
 			return
 		}
 	}
@@ -453,7 +498,7 @@ func checkSubstitutedPrefix(c *Ctx, p *Prog, fn *ssa.Function, rule string) {
 		}
 	})
 	if len(tests) == 0 || lphi == nil {
-		c.Fail(rule, fn.Name()+":substituted-prefix", p.pos(fn.Pos()), "the decoded rune is never compared with utf8.RuneError: a substituted prefix is taken for a character")
+		c.Fail(rule, name+":substituted-prefix", p.pos(fn.Pos()), "the decoded rune is never compared with utf8.RuneError: a substituted prefix is taken for a character")
 		return
 	}
 	isConsume := func(in ssa.Instruction) bool {
@@ -544,5 +589,5 @@ func checkSubstitutedPrefix(c *Ctx, p *Prog, fn *ssa.Function, rule string) {
 			}
 		}
 	}
-	c.Check(bad == "", rule, fn.Name()+":substituted-prefix", p.pos(fn.Pos()), fmt.Sprintf("%d comparison(s) with utf8.RuneError; on the substituted side input is consumed only once prefixes up to 4 bytes have been tried %s", len(tests), bad))
+	c.Check(bad == "", rule, name+":substituted-prefix", p.pos(fn.Pos()), fmt.Sprintf("%d comparison(s) with utf8.RuneError; on the substituted side input is consumed only once prefixes up to 4 bytes have been tried %s", len(tests), bad))
 }
